@@ -24,7 +24,7 @@ enum OpKind {
 //   WAITFOR: a = duration code;  WAITLOOP: a = 0 wait / 1 waitFor, b = duration code, c = drain style (0 process, 1 processOne loop, 2 takeEvent loop)
 //   any consuming op: b = event id for which the listener throws (fault), or -1... stored as b+1 (0 = none) in field d for consumers
 enum { U_TASKS = 0, U_OBJ = 1, U_KEYS = 2, U_FILL = 3 };
-enum { OBJ_EVENTQUEUE = 0, OBJ_HETER = 1, OBJ_ORDERED = 2 };
+enum { OBJ_EVENTQUEUE = 0, OBJ_HETER = 1, OBJ_ORDERED = 2, OBJ_SPIN = 3 };
 enum { MAXEV = 64, T_EV = 2, STOP_ID = MAXEV - 1 };
 
 const char * opName(int k)
@@ -99,7 +99,7 @@ struct Counters
 	uint64_t waitsReturned = 0, waitForTrue = 0, waitForFalse = 0, terminalWithBlockedWaiter = 0, terminalBlockedLegit = 0, earlyReturnChecks = 0,
 		dqnScopes = 0, dqnDestroyedWithPending = 0, overlapRuns = 0;
 	uint64_t observations = 0, observedEmptyTrue = 0, observedEmptyDuringDispatch = 0, oracleEventsChecked = 0;
-	uint64_t perObj[3] = { 0, 0, 0 };
+	uint64_t perObj[4] = { 0, 0, 0, 0 };
 } counters;
 
 struct QPol
@@ -110,6 +110,12 @@ struct QPol
 struct HPol
 {
 	using Threading = sim::SimThreading;
+};
+// the real eventpp::SpinLock as the queue's mutex (schedulable through its guarded hook)
+struct QPolSpin
+{
+	using Threading = con::SimSpinThreading;
+	template <typename T> using QueueList = sim::SimList<T>;
 };
 // the real OrderedQueueList behind the list seam: every operation on the member lists is a scheduling point
 struct QPolOrdered
@@ -156,6 +162,7 @@ struct EQAdapterT
 
 typedef EQAdapterT<QPol, OBJ_EVENTQUEUE> EQAdapter;
 typedef EQAdapterT<QPolOrdered, OBJ_ORDERED> EQOrderedAdapter;
+typedef EQAdapterT<QPolSpin, OBJ_SPIN> EQSpinAdapter;
 
 struct HQAdapter
 {
@@ -715,7 +722,7 @@ struct Harness : ListenerSink, EvHooks
 			if(k == O_PROCESS_IF) orderPreserving = false;
 			if(k == O_PROCESS || k == O_PROCESS_ONE || k == O_PROCESS_IF || k == O_PROCESS_UNTIL || k == O_TAKE || k == O_CLEAR) consumers.insert((int)t);
 		}
-		if(consumers.size() == 1 && orderPreserving && mode == 6 && A::kind == OBJ_EVENTQUEUE) {   // (an ordered queue list dispatches by key, not by arrival)
+		if(consumers.size() == 1 && orderPreserving && mode == 6 && (A::kind == OBJ_EVENTQUEUE || A::kind == OBJ_SPIN)) {   // (an ordered queue list dispatches by key, not by arrival)
 			++counters.fifoChecked;
 			int lastOfProducer[MAXT];
 			for(int i = 0; i < MAXT; ++i) lastOfProducer[i] = -1;
@@ -787,7 +794,7 @@ void generate(uint64_t seed, Plan & plan)
 	const int m = modeNumber();
 	const uint32_t objr = rng.below(100);
 	const bool heter = objr < 25;
-	plan.user(U_OBJ) = heter ? OBJ_HETER : objr < 40 ? OBJ_ORDERED : OBJ_EVENTQUEUE;
+	plan.user(U_OBJ) = heter ? OBJ_HETER : objr < 38 ? OBJ_ORDERED : objr < 52 ? OBJ_SPIN : OBJ_EVENTQUEUE;
 	plan.user(U_KEYS) = 1 + (int)rng.below(2);
 	plan.user(U_FILL) = (int)rng.below(3);
 	plan.cfg[CFG_QUANTUM] = (int)rng.below(3);
@@ -881,15 +888,16 @@ void execute(const Plan & plan, RunOut & out)
 	const int m = modeNumber();
 	if(plan.user(U_OBJ) == OBJ_HETER) runWith<HQAdapter>(plan, m, out);
 	else if(plan.user(U_OBJ) == OBJ_ORDERED) runWith<EQOrderedAdapter>(plan, m, out);
+	else if(plan.user(U_OBJ) == OBJ_SPIN) runWith<EQSpinAdapter>(plan, m, out);
 	else runWith<EQAdapter>(plan, m, out);
 	++counters.runs[m == 6 ? 0 : m == 7 ? 1 : 2];
-	++counters.perObj[plan.user(U_OBJ) == OBJ_HETER ? 1 : plan.user(U_OBJ) == OBJ_ORDERED ? 2 : 0];
+	++counters.perObj[plan.user(U_OBJ) >= 0 && plan.user(U_OBJ) <= 3 ? plan.user(U_OBJ) : 0];
 }
 
 std::string describe(const Plan & plan)
 {
 	std::ostringstream o;
-	o << (plan.user(U_OBJ) == OBJ_HETER ? "HeterEventQueue" : plan.user(U_OBJ) == OBJ_ORDERED ? "EventQueue/OrderedQueueList behind the list seam" : "EventQueue/SimList") << " strat=" << plan.cfg[CFG_STRATEGY] << "/" << plan.cfg[CFG_DEPTH]
+	o << (plan.user(U_OBJ) == OBJ_HETER ? "HeterEventQueue" : plan.user(U_OBJ) == OBJ_ORDERED ? "EventQueue/OrderedQueueList behind the list seam" : plan.user(U_OBJ) == OBJ_SPIN ? "EventQueue/SimList/real SpinLock" : "EventQueue/SimList") << " strat=" << plan.cfg[CFG_STRATEGY] << "/" << plan.cfg[CFG_DEPTH]
 	  << " quantum=" << plan.cfg[CFG_QUANTUM] << (plan.cfg[CFG_SPURIOUS] ? " spurious" : "");
 	for(size_t t = 0; t < plan.tasks.size(); ++t) {
 		o << " | t" << t << ":";
@@ -923,7 +931,7 @@ void statsJson(std::string & out)
 	  << ",\"preempted_between_predicate_and_block\":" << probes().cvPreBlockPreempted << ",\"notify_chose_among_several_waiters\":" << probes().notifyChoseAmongSeveral
 	  << ",\"observations\":" << counters.observations << ",\"observed_empty\":" << counters.observedEmptyTrue << ",\"oracle_events_checked\":" << counters.oracleEventsChecked
 	  << ",\"runs_with_overlap\":" << counters.overlapRuns << ",\"mutex_contended\":" << probes().mutexContended << "}"
-	  << ",\"per_object\":[" << counters.perObj[0] << "," << counters.perObj[1] << "," << counters.perObj[2] << "]";
+	  << ",\"per_object\":[" << counters.perObj[0] << "," << counters.perObj[1] << "," << counters.perObj[2] << "," << counters.perObj[3] << "]";
 	out += o.str();
 }
 
